@@ -17,6 +17,17 @@ CHECKS = {
              "register/radix spellings and .repeat groups. Exploration level: form coverage is complete, value coverage is sampled.",
         note="Trusted: vf/ref/pdp11.py written from the handbook (231 rows independent, 21 pinned rows are change detection only).",
         design="4/C01"),
+    "C04": dict(
+        category="exploration",
+        technique="exhaustive enumeration of branch/SOB distances x operand shapes + Hypothesis relative-operand programs, checked by an independent PDP-11 decoder and an accept/reject table",
+        text="All 17 branch mnemonics at every byte distance -300..+300 and SOB at -140..+6 are assembled in nine source shapes (labels with "
+             "filler, label+-k in three radices, .+-k, local labels, inside .repeat) and judged against the harness' own accept/reject table "
+             "in both directions; every accepted word is decoded independently and must reach the source target. Random programs put "
+             "relative and relative-deferred operands in every operand position (after 0 or 1 extension words, also in .repeat copies) "
+             "with targets and link bases anywhere in the 64 KiB space including wrap-around. The distance domain is enumerated "
+             "completely; operand positions and targets are sampled.",
+        note="Trusted: vf/ref/pdp11.py decoder; the accept rule 'even and -256..254 / -126..0 from .+2'.",
+        design="4/C04"),
     "C14": dict(
         category="exploration",
         technique="exhaustive enumeration (256 bytes, 0x110000 code points) + Hypothesis strings against Python's koi8-r/ASCII and the round-trip law",
